@@ -62,22 +62,22 @@ def sim_model(log, M, o, n, m):
     tm = {}
     if M == 'JACCARD':
         v = f.div(ro, z3.ToReal(n + m - o))
-        tm['qs'] = log.ops[-1].e
+        tm['qs'] = log.last_op.e
     elif M == 'COSINE':
         sa = f.sqrt(rn)
-        tm['Sa'], tm['sa'] = log.ops[-1].e, sa
+        tm['Sa'], tm['sa'] = log.last_op.e, sa
         sb = f.sqrt(rm)
-        tm['Sb'], tm['sb'] = log.ops[-1].e, sb
+        tm['Sb'], tm['sb'] = log.last_op.e, sb
         d = f.mul(sa, sb)
         tm['d'] = d
         v = f.div(ro, d)
-        tm['qs'] = log.ops[-1].e
+        tm['qs'] = log.last_op.e
     elif M == 'DICE':
         v = f.div(2 * ro, z3.ToReal(n + m))        # 2.0 * float(o) is exact
-        tm['qs'] = log.ops[-1].e
+        tm['qs'] = log.last_op.e
     elif M == 'OVERLAP_COEFFICIENT':
         v = f.div(ro, z3.ToReal(z3.If(n <= m, n, m)))
-        tm['qs'] = log.ops[-1].e
+        tm['qs'] = log.last_op.e
     else:
         raise ValueError(M)
     log.assume_normal = False
@@ -100,3 +100,32 @@ def required_sizes(log, M, o, n, m, t):
     s, tm = sim_model(log, M, o, n, m)
     s4 = round4_model(log, s)
     return z3.And(o >= 1, o <= n, o <= m, n <= MAXTOK, m <= MAXTOK, s >= t, s4 >= t), s, tm
+
+
+cpu_count = z3.Int('cpu_count')        # multiprocessing.cpu_count(), assumed >= 1
+
+
+def in_list(lv, x, upto=None):
+    """x occurs in the first `upto` elements of list value lv (a V)."""
+    from .values import L_has
+    return L_has(lv.ty, lv.t, x, upto)
+
+
+def concat(a, b):
+    """string concatenation on Val (the same symbol the executor uses for `+`)."""
+    from .natives import val_concat
+    return val_concat(a, b)
+
+
+# split_table: boundary j of the split of L rows into k chunks, int(round(j * split_size))
+split_bnd = z3.Function('split_bnd', I, I, I, I)
+
+
+def split_bnd_model(log, j, ss):
+    """Float-model facts for int(round(j * ss)); returns (boundary term, exact product, rounded product)."""
+    f = SpecFP(log)
+    fj = f.i2f(j)
+    p = f.mul(fj, ss)
+    P = log.last_op.e
+    b = f.round0(p)
+    return b, P, p, fj
